@@ -124,8 +124,10 @@ def cmdstruct_def(rnd, tid, i):
     for f in fields:
         f["ann"].update(positional=False, posmeta="", hide=False)
     tname = CMD_TYPE_NAMES[i % len(CMD_TYPE_NAMES)] + str(i)
+    # `command("name")` names the command explicitly; a type without fields may be written as a unit struct
     return {"id": tid, "shape": "cmdstruct", "fields": fields, "variants": [], "version": False, "tname": tname, "tchars": chars(tname),
-            "help": f"HELP-{tid}-cmd" if rnd.random() < 0.7 else ""}
+            "help": f"HELP-{tid}-cmd" if rnd.random() < 0.7 else "", "cmdname": f"cmd-{tid.lower()}" if rnd.random() < 0.5 else "",
+            "unit": not fields and rnd.random() < 0.7}
 
 
 def tuple_def(rnd, tid):
@@ -170,6 +172,7 @@ def enum_def(rnd, tid, commands):
             elif r < 0.5:
                 ann["long"] = f"named-{i}"
         variants.append({"name": n, "chars": chars(n), "kind": kind, "command": commands, "fields": fields, "ann": ann,
+                         "cmdname": f"c{i}-named" if commands and rnd.random() < 0.3 else "",
                          "help": f"HELP-{tid}-{n}" if rnd.random() < 0.8 else ""})
     return {"id": tid, "shape": "enum", "fields": [], "variants": variants, "version": False}
 
@@ -304,11 +307,14 @@ def rust_source(tds):
             if td["help"]:
                 out.append(f"/// {td['help']}")
             out.append("#[derive(Debug, Clone, Bpaf)]")
-            out.append("#[bpaf(command)]")
-            out.append(f"pub struct {td['tname']} {{")
-            for f in td["fields"]:
-                out.append(field_attrs(f) + f"    {rn(f)}: {rust_ty(f)},")
-            out.append("}")
+            out.append(f'#[bpaf(command("{td["cmdname"]}"))]' if td["cmdname"] else "#[bpaf(command)]")
+            if td["unit"]:
+                out.append(f"pub struct {td['tname']};")
+            else:
+                out.append(f"pub struct {td['tname']} {{")
+                for f in td["fields"]:
+                    out.append(field_attrs(f) + f"    {rn(f)}: {rust_ty(f)},")
+                out.append("}")
             vals = ", ".join(val_expr(f, f"t.{rn(f)}") for f in td["fields"])
             out.append(f"impl From<{td['tname']}> for Val {{ fn from(t: {td['tname']}) -> Val {{ Val::Tuple(vec![Val::Variant(0, Box::new(Val::Tuple(vec![{vals}])))]) }} }}")
             reg.append(f'        "{tid}" => Box::new(|a: &[std::ffi::OsString]| {snake(td["tname"])}().to_options().run_inner(Args::from(a).set_name("app")).map(Val::from)),')
@@ -346,7 +352,7 @@ def rust_source(tds):
                     out.append(f"    /// {v['help']}")
                 items = []
                 if v["command"]:
-                    items.append("command")
+                    items.append(f'command("{v["cmdname"]}")' if v["cmdname"] else "command")
                 if v["ann"]["short"] == "auto":
                     items.append("short")
                 if v["ann"]["long"] == "auto":
